@@ -285,7 +285,14 @@ class C15(Property):
         for k, v in pairs:
           src[k] = v
         try:
-          d = self.core.MultiKeyDict(src)
+          if len(op) > 2 and op[2] and src and \
+             all(isinstance(k, str) for k in src):
+            d = self.core.MultiKeyDict(**src)       # keyword constructor
+            probes.add("keyword-constructor")
+          elif len(op) > 2 and op[2] and src:
+            d = self.core.MultiKeyDict(list(src.items()))   # pairs
+          else:
+            d = self.core.MultiKeyDict(src)
         except Exception as exc:
           raise _Mismatch("unexpected-exception", "construct",
                           "MultiKeyDict(%r) raised %r" % (src, exc))
